@@ -6,7 +6,7 @@ PID = 'C11'
 LEVEL = 'exploration'
 
 
-def check_point(acc, a5, stratum, p, r):
+def check_point(acc, a5, stratum, p, r, batch=None):
     acc.n['evaluations'] += 1
     acc.strata['point:' + (stratum.split('_cell_')[0])] += 1
     case = {'kind': 'point', 'point': [p[0], p[1]], 'r': r}
@@ -17,6 +17,8 @@ def check_point(acc, a5, stratum, p, r):
     except Exception as e:
         acc.violation(k + ':raises', f'lonlat_to_cell / cell_to_lonlat raised {type(e).__name__}: {e} for {p!r} at resolution {r}', case)
         return
+    if batch is not None:
+        batch.append((p, r, c))
     d = sp.angle(sp.vec((sp.wrap_lon(p[0]), p[1])), sp.vec(centre)) / sp.width(r)
     acc.maximum(f'quantisation_in_widths_r{r:02d}', round(d, 4), [p[0], p[1]])
     if not (d <= 1.0):
@@ -63,10 +65,27 @@ def work_points(task):
     except Exception as e:
         acc.violation(f'c11:alphabet:{task[0]}:{str(task[1])[:60]}', f'building the point alphabet raised {type(e).__name__}: {e}', {'kind': 'alphabet'})
         return acc
+    batch = []
     for stratum, p, r, origin in pts:
         if stratum == 'periodic':
             continue
-        check_point(acc, a5, stratum, p, r)
+        check_point(acc, a5, stratum, p, r, batch)
+    # two-phase (batch) use: the centres asked again in a different, face-interleaved order must still be within one width
+    order = sorted(batch, key=lambda t: (t[1], (rm.decode(t[2]) or ())[1:], t[2]))
+    for p, r, c in order[::2]:
+        acc.n['evaluations'] += 1
+        acc.strata['point:batch_second_pass'] += 1
+        try:
+            centre = a5.cell_to_lonlat(c)
+        except Exception as e:
+            acc.violation(f'c11:batch:{c:#x}:raises', f'cell_to_lonlat({c:#x}) raised {type(e).__name__}: {e}', {'kind': 'point', 'point': [p[0], p[1]], 'r': r})
+            continue
+        d = sp.angle(sp.vec((sp.wrap_lon(p[0]), p[1])), sp.vec(centre)) / sp.width(r)
+        if not (d <= 1.0):
+            acc.violation(f'c11:batch:{p[0]!r},{p[1]!r}@{r}', f'asked again in a batch, the centre of {c:#x} (cell of {p!r} at resolution {r}) is {d:.3f} cell widths from the point (limit 1.0)',
+                          {'kind': 'point', 'point': [p[0], p[1]], 'r': r})
+            continue
+        acc.n['nontrivial'] += 1
     return acc
 
 
@@ -100,7 +119,7 @@ def run(tier, t0):
     tasks = [(work_points, t) for t in points.tasks(tier, common.seed()) if t[0] != 'periodic']
     R = 5 if tier == 'quick' else 6
     for r in range(2, R + 1):
-        for ch in common.chunks(rm.descendants((), r), 500):
+        for ch in common.chunks(rm.interleaved(rm.descendants((), r)), 500):
             tasks.append((work_shapes, ch))
     deep = []
     level = 'basic' if tier == 'quick' else 'single'
@@ -111,7 +130,7 @@ def run(tier, t0):
                     continue
                 for d in seeds.g1_patterns(r - 1, level):
                     deep.append((f, n) + d)
-    for ch in common.chunks(deep, 500):
+    for ch in common.chunks(rm.interleaved(deep), 500):
         tasks.append((work_shapes, ch))
     for kind, lon, lat in geo.special_sites():
         tasks.append((work_site_shapes, (kind, lon, lat)))
